@@ -151,14 +151,24 @@ func deterministic(text, dir string) error {
 		}
 		first[f] = b
 	}
-	for round := 0; round < 3; round++ {
+	// the second generation goes into an empty directory, into one that holds longer files of the same names (what a
+	// generation from a bigger schema leaves behind), and into one that holds shorter ones
+	for round, where := range []string{"an empty directory", "a directory holding longer files from an earlier generation", "a directory holding shorter files from an earlier generation"} {
 		d2, _ := os.MkdirTemp("", "verif-c14-det-")
+		for _, f := range genFiles {
+			switch round {
+			case 1:
+				os.WriteFile(filepath.Join(d2, f), append(append([]byte{}, first[f]...), bytes.Repeat([]byte("\nvar _ = 0 // left over\n"), 400)...), 0o644)
+			case 2:
+				os.WriteFile(filepath.Join(d2, f), first[f][:len(first[f])/2], 0o644)
+			}
+		}
 		err := generateInto(text, d2)
 		if err == nil {
 			for _, f := range genFiles {
 				b, _ := os.ReadFile(filepath.Join(d2, f))
 				if !bytes.Equal(b, first[f]) {
-					err = fmt.Errorf("%s differs between two generations from the same schema", f)
+					err = fmt.Errorf("%s differs between two generations from the same schema (the second one into %s: %d vs %d bytes)", f, where, len(b), len(first[f]))
 					break
 				}
 			}
